@@ -234,14 +234,16 @@ func c17Roots() []func() any {
 		// (a nil embedded pointer is exercised as a value inside the map root below: as a ROOT, EnvMap would turn the nil *Base into an empty map,
 		// which the Val encoding of a nil pointer cannot express — it carries no pointee type)
 		func() any {
-			return map[string]any{"art": S4{Base: Base{Created: "2024-03-03", ID: 4}, Title: "in-map", ID: 7}, "list": []S4{{Base: Base{Created: "c0"}, Title: "l0"}}, "p5": S5{Base: &Base{Created: "c5"}}, "n5": S5{}}
+			return map[string]any{"years": map[string]int{"2024": 1, "k": 2, "-1": 3, "0": 4}, "tags": map[string][]string{"404": {"nf", "gone"}, "ok": {"fine"}}, "anyyears": map[string]any{"2024": "y", "7": map[string]int{"1": 11}},
+				"strs": map[string]string{"10": "ten"}, "art": S4{Base: Base{Created: "2024-03-03", ID: 4}, Title: "in-map", ID: 7}, "list": []S4{{Base: Base{Created: "c0"}, Title: "l0"}}, "p5": S5{Base: &Base{Created: "c5"}}, "n5": S5{}}
 		},
 	}
 }
 
 var c17Steps = []string{".k", ".missing", "[0]", "[1]", "[5]", "[-1]", ".0", ".1", "['k']", "[\"k\"]", ".Name", ".name", ".secret", ".hid", ".x", ".X", ".Y", ".inner", ".Inner", ".pinner", ".PInner",
 	".l", ".l[2].z", ".one", ".items", ".Items[0]", " .k ", "..k", "[", "[]", "[ 0 ]", ".s", ".nil", ".Meta.a", ".tag_only", ".Title", ".n", ".a",
-	".Created", ".created", ".ID", ".Base", ".Base.Created", ".Base.ID", ".note", ".title", ".art.Created", ".art.ID", ".art.Base.ID", ".list[0].Created", ".p5.Created", ".n5.Created", ".n5.Title", ".art.created"}
+	".Created", ".created", ".ID", ".Base", ".Base.Created", ".Base.ID", ".note", ".title", ".art.Created", ".art.ID", ".art.Base.ID", ".list[0].Created", ".p5.Created", ".n5.Created", ".n5.Title", ".art.created",
+	".2024", "['2024']", "[2024]", "[\"2024\"]", ".404[0]", "['404'][1]", ".404.1", ".ok[0]", ".7.1", "[7][1]", ".10", "[10]", ".2025", ".-1", "['-1']"}
 
 func c17Values(r *Run) any {
 	vals := []any{nil, true, false, 0, 1, "", "str", int8(0), uint16(3), 1.5, []any{1, "x"}, map[string]any{"k": "v2"}, S2{3, "set"}, &S2{8, "pset"}, []int{}, map[string]string{}}
